@@ -1405,10 +1405,12 @@ class SyncObj(object):
             if currTime < nodeIntervalStart or currTime >= nodeIntervalEnd:
                 return
 
+        forced = self.__forceLogCompaction
         self.__forceLogCompaction = False
 
         lastAppliedEntries = self.__getEntries(self.__raftLastApplied - 1, 2)
-        if len(lastAppliedEntries) < 2 or lastAppliedEntries[0][1] == self.__lastSerializedEntry:
+        # (a forced compaction also renews a stored snapshot that was replaced by an older one received from a leader)
+        if len(lastAppliedEntries) < 2 or (lastAppliedEntries[0][1] == self.__lastSerializedEntry and not forced):
             self.__lastSerializedTime = currTime
             return
 
